@@ -329,3 +329,73 @@ pub fn validate_execution(m: &GraphModel, path: &[(u8, Option<u8>)]) -> Result<(
 
 pub type PathV = Vec<(u8, Option<u8>)>;
 pub type Disc = BTreeMap<String, PathV>;
+
+/// A fixed family of larger structured graphs (5-8 nodes: chains, rings, trees, grids with joins, lassos,
+/// stars, several components, long-vs-short routes, ignored and duplicated actions) plus 48 graphs drawn
+/// by a fixed linear congruential generator. They complement the exhaustive n<=3 enumeration with deeper
+/// paths and wider frontiers; the claim for them is "these graphs", not "all graphs with 8 nodes".
+/// Returns (name, action lists, init sets to use).
+pub fn structured() -> Vec<(String, Vec<Vec<Option<u8>>>, Vec<Vec<u8>>)> {
+    let e = |v: &[u8]| -> Vec<Option<u8>> { v.iter().map(|t| Some(*t)).collect() };
+    let mut out: Vec<(String, Vec<Vec<Option<u8>>>, Vec<Vec<u8>>)> = Vec::new();
+    // chain of 8
+    out.push(("chain8".into(), (0..8u8).map(|i| if i < 7 { e(&[i + 1]) } else { vec![] }).collect(), vec![vec![0], vec![0, 4]]));
+    // ring of 6
+    out.push(("ring6".into(), (0..6u8).map(|i| e(&[(i + 1) % 6])).collect(), vec![vec![0], vec![3, 0]]));
+    // binary tree with 7 nodes
+    out.push(("bintree7".into(), (0..7u8).map(|i| if i < 3 { e(&[2 * i + 1, 2 * i + 2]) } else { vec![] }).collect(), vec![vec![0]]));
+    // grid 2x4, moves right and down: many joins
+    out.push(("grid2x4".into(), (0..8u8).map(|i| {
+        let (r, c) = (i / 4, i % 4);
+        let mut v = Vec::new();
+        if c < 3 { v.push(Some(r * 4 + c + 1)); }
+        if r < 1 { v.push(Some(4 + c)); }
+        v
+    }).collect(), vec![vec![0], vec![0, 5]]));
+    // complete graph on 5 nodes
+    out.push(("k5".into(), (0..5u8).map(|i| (0..5u8).filter(|j| *j != i).map(Some).collect()).collect(), vec![vec![0], vec![4, 2]]));
+    // ladder: two chains with rungs
+    out.push(("ladder8".into(), (0..8u8).map(|i| {
+        let mut v = Vec::new();
+        if i % 4 < 3 { v.push(Some(i + 1)); }
+        if i < 4 { v.push(Some(i + 4)); }
+        v
+    }).collect(), vec![vec![0]]));
+    // chain of diamonds
+    out.push(("diamonds7".into(), vec![e(&[1, 2]), e(&[3]), e(&[3]), e(&[4, 5]), e(&[6]), e(&[6]), vec![]], vec![vec![0]]));
+    // lasso: stem of 3 then a cycle of 4
+    out.push(("lasso7".into(), vec![e(&[1]), e(&[2]), e(&[3]), e(&[4]), e(&[5]), e(&[6]), e(&[3])], vec![vec![0]]));
+    // star out
+    out.push(("star8".into(), (0..8u8).map(|i| if i == 0 { e(&[1, 2, 3, 4, 5, 6, 7]) } else { vec![] }).collect(), vec![vec![0]]));
+    // star in: several init states joining in one node
+    out.push(("instar6".into(), vec![e(&[5]), e(&[0]), e(&[0]), e(&[0]), e(&[0]), vec![]], vec![vec![1, 2, 3, 4], vec![4, 1]]));
+    // two components, one with a cycle
+    out.push(("twocomp6".into(), vec![e(&[1]), e(&[2]), vec![], e(&[4]), e(&[5]), e(&[3])], vec![vec![0, 3], vec![3, 0], vec![0]]));
+    // chain with a shortcut and a back edge
+    out.push(("shortcut6".into(), vec![e(&[1, 3]), e(&[2]), e(&[3]), e(&[4, 0]), e(&[5]), vec![]], vec![vec![0]]));
+    // ignored and duplicated actions
+    out.push(("ignored6".into(), vec![vec![Some(1), None, Some(1), Some(2)], vec![Some(3), Some(3)], vec![None, Some(4)], vec![None], vec![Some(5), None, Some(0)], vec![]], vec![vec![0]]));
+    // a long and a short route to the same node
+    out.push(("routes8".into(), vec![e(&[1, 7]), e(&[2]), e(&[3]), e(&[7]), vec![], vec![], e(&[5]), e(&[6])], vec![vec![0]]));
+    // wide frontier joining in one node
+    out.push(("wide8".into(), (0..8u8).map(|i| if i == 0 { e(&[1, 2, 3, 4, 5, 6]) } else if i < 7 { e(&[7]) } else { vec![] }).collect(), vec![vec![0]]));
+    // self loops along a chain
+    out.push(("loops5".into(), vec![e(&[0, 1]), e(&[1, 2]), e(&[3, 2]), e(&[3, 4]), e(&[4])], vec![vec![0]]));
+    // pseudo-random graphs from a fixed generator
+    let mut x: u64 = 0x9E3779B97F4A7C15;
+    let mut next = |m: u64| -> u64 {
+        x = x.wrapping_mul(6364136223846793005).wrapping_add(1442695040888963407);
+        (x >> 33) % m
+    };
+    for k in 0..48 {
+        let n = 5 + next(4) as u8;
+        let succ: Vec<Vec<Option<u8>>> = (0..n).map(|_| {
+            let deg = next(4);
+            (0..deg).map(|_| if next(9) == 0 { None } else { Some(next(n as u64) as u8) }).collect()
+        }).collect();
+        let inits = if next(3) == 0 { vec![vec![0], vec![next(n as u64) as u8, 0]] } else { vec![vec![0]] };
+        let inits = inits.into_iter().map(|mut v: Vec<u8>| { v.dedup(); if v.len() == 2 && v[0] == v[1] { v.pop(); } v }).collect();
+        out.push((format!("lcg{k}"), succ, inits));
+    }
+    out
+}
